@@ -304,7 +304,7 @@ def _sector_obs(terms, lab, n, jw, pd, style, sym, sec, regsA, form, how, scale,
     return sc
 
 
-def observe_case(terms, n, jw, pd, lab, style, rng, have_nx, rich=False, nsectors=2, model=None, tid=0):
+def observe_case(terms, n, jw, pd, lab, style, rng, have_nx, rich=False, nsectors=2, model=None, tid=0, force=None):
     """Drive one term list through the real builder and record every representation."""
     # the builder without an explicit HilbertSpace only knows the sites it has seen
     if lab.auto:
@@ -363,7 +363,13 @@ def observe_case(terms, n, jw, pd, lab, style, rng, have_nx, rich=False, nsector
             regsA_c = regsA
         A = U.ref_matrix(terms, n, fermi=jw)
         cands = [(s, q) for s, q in U.all_sectors(n, regsA_c) if U.conserves(A, s, regsA_c if s == "U1U1" else [], n)]
-        if cands:
+        if force is not None:
+            # requested (sector, spelling, route) combinations, still only where the reference conserves
+            for sym, sec, form, how in force:
+                if (sym, list(sec)) in [(s_, list(q_)) for s_, q_ in cands]:
+                    rec["sectors"].append(_sector_obs(terms, lab, n, jw, pd, style, sym, list(sec),
+                                                      regsA_c if sym == "U1U1" else [], form, how, scale, H))
+        elif cands:
             pick = [cands[i] for i in rng.permutation(len(cands))[:nsectors]]
             for sym, sec in pick:
                 form = int(rng.integers(8))
@@ -910,6 +916,28 @@ def run(ctx):
                     lab = labs[0]
         recs.append(observe_case(terms, n, jw, pd, lab, style, rng, have_nx,
                                  rich=(ci % 6 == 0), nsectors=(2 if n < 4 else 1), tid=11))
+    # every documented spelling of a U1U1 sector with unequal fillings and unequal species sizes, on operators
+    # that are neither symmetric nor real: the dict keys against the sorted label order must not matter
+    nsp = 0
+    for n in (3, 4):
+        for li in range(3):
+            for rep_i in range(1 if quick else 4):
+                labs = [l for l in U.labellings(n, rng, with_species=True) if l.species is not None]
+                lab = labs[li]
+                regsA = lab.regsA()
+                na, nb = len(regsA), n - len(regsA)
+                terms = U.u1u1_terms(rng, n, regsA)
+                uneq = [(ka, kb) for ka in range(na + 1) for kb in range(nb + 1) if ka != kb]
+                combos = [("U1U1", [na, ka, nb, kb], form, how) for (ka, kb) in uneq for form in (0, 1, 2, 3, 5)
+                          for how in ("default", "percall")]
+                sel = [combos[int(i)] for i in rng.permutation(len(combos))[:(5 if quick else 10)]]
+                # the spelling whose key order matters is always among them
+                sel += [c for c in combos if c[2] in (1, 5)][(rep_i + li) % 2::7][:2]
+                jw = bool((li + rep_i + n) % 2)
+                recs.append(observe_case(terms, n, jw, 0, lab, int(rng.integers(3)), rng, have_nx, rich=False,
+                                         tid=12, force=sel))
+                nsp += 1
+    ctx.extra["u1u1_spelling_cases"] = nsp
     ctx.sample({"random_case": {k: recs[nreplayed + 1][k] for k in ("terms", "jw", "pd", "n", "labelling", "fterms")}})
     for i, r in enumerate(recs):
         r["tid"] = 100 + i          # one trace per case: chunks may split anywhere
